@@ -12,7 +12,20 @@ build() {
 }
 if [ "${1:-}" = "setup" ]; then
   build
+  # pre-warm the race and overlay build caches
+  go build -race -tags verif -o bin/verifrace ./cmd/verifrace
+  go build -o bin/envxgen ./cmd/envxgen && rm -rf .work/envx && mkdir -p .work/envx && (cd /repo && /verif/bin/envxgen /verif/.work/envx /verif/envx/runtime.go.src) && go build -overlay .work/envx/overlay.json -tags "verif envx" -o bin/verifenvx ./cmd/verifenvx
   exec bin/verif setup
 fi
 build
+if [ "${1:-}" = "C10" ] && [ "${2:-quick}" != "replay" ]; then
+  # C10 needs two more binaries, both rebuilt from /repo's working tree:
+  #  - the op bodies under the race detector (free-running),
+  #  - the map-iteration-order explorer, built with -overlay against rewritten copies of geom's sources.
+  go build -race -tags verif -o bin/verifrace ./cmd/verifrace || { echo "ENGINE-ERROR: race build failed"; exit 2; }
+  go build -o bin/envxgen ./cmd/envxgen || { echo "ENGINE-ERROR: envxgen build failed"; exit 2; }
+  rm -rf .work/envx && mkdir -p .work/envx
+  (cd /repo && /verif/bin/envxgen /verif/.work/envx /verif/envx/runtime.go.src) || exit 2
+  go build -overlay .work/envx/overlay.json -tags "verif envx" -o bin/verifenvx ./cmd/verifenvx || { echo "ENGINE-ERROR: explorer build failed"; exit 2; }
+fi
 exec bin/verif "$@"
